@@ -103,7 +103,9 @@ def check_c01(rep):
              # plain modulus larger than one of the coefficient primes (no fast plain lift), power-of-two plain modulus
              "bfv_8_12289_10,50,50,50", "bgv_8_12289_50,12,50,50", "bfv_8_16_30,30,30", "bfv_8_7_30,30,30",
              # the special prime used for encryption (trailing s: first level = key level, no key switching), and single-prime chains
-             "bfv_8_17_40,40,40s", "bgv_8_17_40,30,40s", "ckks_8_0_40,40,40s", "bfv_8_17_45", "bgv_4_17_40", "ckks_4_0_50"]
+             "bfv_8_17_40,40,40s", "bgv_8_17_40,30,40s", "ckks_8_0_40,40,40s", "bfv_8_17_45", "bgv_4_17_40", "ckks_4_0_50",
+             # contexts built without expanding the modulus chain (trailing x: only the key level and the first level exist)
+             "bfv_8_17_40,40,40x", "bgv_8_17_40,50,40x", "ckks_8_0_40,40,40x"]
     if not quick:
         psets += ["bfv_32_193_50,50,50", "bgv_32_193_50,50,50", "bfv_8_17_60,60,60,60,60,60,60", "bgv_8_17_30,30,30,30,30,30,30",
                   "ckks_8_0_60,60,60,60,60", "bfv_64_257_45,45,45", "ckks_64_0_45,45,45", "bfv_4_97_25,25,25,25,25"]
@@ -152,6 +154,10 @@ def check_c02(rep):
     nokeys = ["Encode", "Encrypt", "Add", "Sub", "Multiply", "Negate", "AddPlain", "MulPlain", "ModSwitchNext", "ToNtt", "FromNtt"]
     for nm, ps in (("special_bfv", "bfv_8_17_50,50,50s"), ("special_bgv", "bgv_8_17_50,40,50s"), ("single_bfv", "bfv_8_17_58"), ("single_bgv", "bgv_8_17_58")):
         run_instance(rep, nm, ps, actions=nokeys, depth=5 if quick else 6, extra_sample=2000 if quick else 20000)
+    # contexts whose modulus chain is not expanded: one level, key switching available, every switch down must be refused
+    for nm, ps in (("noexpand_bfv", "bfv_8_17_50,50,50x"), ("noexpand_bgv", "bgv_8_17_50,50,50x")):
+        run_instance(rep, nm, ps, actions=["Encode", "Encrypt", "Add", "Sub", "Multiply", "Relin", "Negate", "MulPlain", "ModSwitchNext", "Rotate"], depth=5 if quick else 6,
+                     steps=[1, -2], extra_sample=2000 if quick else 20000)
     # k-ary sum and product (1..4 operands, repetitions, mixed levels / sizes / correction factors)
     kary = ["Encode", "Encrypt", "AddMany", "MultiplyMany", "Multiply", "ModSwitchNext"]
     for sch, ps in (("bfv", "bfv_8_17_55,55,55,55"), ("bgv", "bgv_8_17_55,55,55,55")):
